@@ -383,7 +383,16 @@ def direct_case(rng, ctx, K):
         # per-pixel incident beam with one common scattered beam (symmetry in the two beams includes shapes)
         va, vb = vec(a, u1), vec(b[0], u2)
         ctx.hit('per-pixel incident, scalar scattered')
-    shape = 'scalar' if scalar else ('per_pixel' if va.ndim and vb.ndim else
+    if not scalar and rng.random() < 0.15:
+        # the two beams vary along *different* dimensions (several sources x several detectors); dimension
+        # names in either alphabetical order
+        d1, d2 = (('run', 'spectrum') if rng.random() < 0.5 else ('spectrum', 'run'))
+        k = int(rng.integers(2, 5))
+        va = sc.vectors(dims=[d1], values=a[:k] if len(a) >= k else np.resize(a, (k, 3)), unit=u1)
+        vb = sc.vectors(dims=[d2], values=b, unit=u2)
+        ctx.hit('beams along different dimensions')
+    shape = 'scalar' if scalar else ('disjoint_dims' if va.ndim and vb.ndim and va.dims != vb.dims else
+                                     'per_pixel' if va.ndim and vb.ndim else
                                      'scalar_incident' if vb.ndim else 'scalar_scattered')
     if fn == 0:
         K.two_theta(incident_beam=va, scattered_beam=vb)
@@ -428,7 +437,7 @@ def requirements(tier):
                           'total_beam_length', 'total_straight_beam_length_no_scatter', 'two_theta',
                           'accessor.two_theta', 'accessor.Ltotal_noscatter', 'invariance.rotation',
                           'invariance.translation', 'invariance.swap')}
-    return {'events': ev, 'forced': ['angle:' + c for c in ANGLE_CLASSES] + ['axis-aligned beamline, sample at origin', 'per-pixel incident, scalar scattered']}
+    return {'events': ev, 'forced': ['angle:' + c for c in ANGLE_CLASSES] + ['axis-aligned beamline, sample at origin', 'per-pixel incident, scalar scattered', 'beams along different dimensions']}
 
 
 def run(shard, ctx):
